@@ -86,7 +86,7 @@ class Row(Vector):
 	def __init__(self, table, index=0):
 		# SNAPSHOT: Grab raw column lists for speed
 		self._raw_cols = [col._underlying for col in table._underlying]
-		self._column_map = table._column_map
+		self._column_map = table._fresh_column_map()
 		self._index = index
 		
 		# Smart Dtype Inference (Runs once per table iteration/access)
@@ -297,6 +297,12 @@ class Table(Vector):
 
 		return column_map
 	
+	def _fresh_column_map(self):
+		"""Accessor map, rebuilt first if a column was renamed through a live view."""
+		if any(col._wild for col in self._underlying or []):
+			self._column_map = self._build_column_map()
+		return self._column_map
+
 	def __dir__(self):
 		"""Return list of available attributes including sanitized column names."""
 		# Use object.__dir__ to get instance attributes, then add column names
@@ -322,8 +328,7 @@ class Table(Vector):
 	def __getattr__(self, attr):
 		"""Access columns by sanitized attribute name using pre-computed column map."""
 		# Check if any column has been renamed and rebuild map if needed
-		if any(col._wild for col in self._underlying or []):
-			self._column_map = self._build_column_map()
+		column_map = self._fresh_column_map()
 
 		# Parse for indexed accessor pattern (e.g., 'total__5')
 		base_name, col_idx = _parse_indexed_attr(attr)
@@ -360,7 +365,7 @@ class Table(Vector):
 		
 		else:
 			# Regular access: look up by sanitized name
-			col_idx_lookup = self._column_map.get(attr) or self._column_map.get(attr.lower())
+			col_idx_lookup = column_map.get(attr) or column_map.get(attr.lower())
 			if col_idx_lookup is not None:
 				return self._underlying[col_idx_lookup]
 		
@@ -410,6 +415,7 @@ class Table(Vector):
 		
 		# After initialization, check if setting an existing column
 		if self._column_map is not None:
+			column_map = self._fresh_column_map()
 			# Parse for indexed accessor pattern (e.g., 'total__5')
 			base_name, col_idx_indexed = _parse_indexed_attr(attr)
 			
@@ -451,7 +457,7 @@ class Table(Vector):
 				return
 			
 			# Regular column lookup by name
-			col_idx = self._column_map.get(attr) or self._column_map.get(attr.lower())
+			col_idx = column_map.get(attr) or column_map.get(attr.lower())
 			if col_idx is not None:
 				# Replace the column in _underlying
 				# (the table stores its own snapshot; the caller keeps its vector)
@@ -687,6 +693,7 @@ class Table(Vector):
 		# This replicates the lookup logic from __getitem__
 		target_indices = []
 		n_cols = len(self._underlying)
+		column_map = self._fresh_column_map()
 		
 		if isinstance(col_spec, slice):
 			target_indices = list(range(n_cols)[col_spec])
@@ -694,7 +701,7 @@ class Table(Vector):
 			target_indices = [col_spec]
 		elif isinstance(col_spec, str):
 			# Look up by name
-			idx = self._column_map.get(col_spec) or self._column_map.get(col_spec.lower())
+			idx = column_map.get(col_spec) or column_map.get(col_spec.lower())
 			if idx is None:
 				raise SerifKeyError(f"Column '{col_spec}' not found")
 			target_indices = [idx]
@@ -702,7 +709,7 @@ class Table(Vector):
 			# Handle list of names/ints
 			for c in col_spec:
 				if isinstance(c, str):
-					idx = self._column_map.get(c) or self._column_map.get(c.lower())
+					idx = column_map.get(c) or column_map.get(c.lower())
 					if idx is None:
 						raise SerifKeyError(f"Column '{c}' not found")
 					target_indices.append(idx)
